@@ -66,7 +66,9 @@ CLAIMED['C02'] = dict(
          'when own + queued do not cover the request, the stored trials afterwards are the old ones followed by exactly one new trial per '
          'suggestion, those not handed out REQUESTED and unowned, with ids max+1 .. max+|suggestions| in creation order, each larger '
          'than every earlier id (C02_new_ids_above, C02_new_ids_increase). The numbering and unique-id hypotheses are invariants of every '
-         'reachable state (C02_ready_on_reachable_states). STICKY (C02_sticky, ..._on_reachable_states): a worker holding at least '
+         'reachable state (C02_ready_on_reachable_states), and so is the order of the stored ids: in every reachable state the trials '
+         'are stored in strictly increasing id order, i.e. ids increase with creation order along every history of any RPCs '
+         '(C02_ids_increase_with_creation_order). STICKY (C02_sticky, ..._on_reachable_states): a worker holding at least '
          '`count` ACTIVE trials gets exactly its first `count` again and neither trials nor study change; an unfinished operation is '
          'returned unchanged. Proved by characterising the three loops of the handler program (assign / create / remain) and composing '
          'them into one function of the stored trials (sg_spec), whose consequences are list lemmas. PARTIAL: that the handler program '
@@ -82,13 +84,16 @@ CLAIMED['C06'] = dict(
          'normally leaves no suggestion operation unfinished, and so does every history of normally ending RPCs from the initial state '
          '(C06_never_wedged, C06_never_wedged_history; proved by showing that every normally ending path of SuggestTrials after the creation '
          'of its operation record runs finish_op - induction through the assign / create / remain loops - and that no other handler writes '
-         'an operation). EARLY STOPPING (C06_early_stop_operation_never_left_active, ..._quiet_along_every_history, '
+         'an operation). STRONGER, WITHOUT THE "ENDS NORMALLY" HYPOTHESIS (C06_no_unfinished_operation_on_any_history, '
+         'C06_suggest_never_fails_on_an_active_study): along EVERY history from the initial state - RPCs of every kind, ending normally or '
+         'with an error, every Pythia answer - no suggestion operation is ever left unfinished, and SuggestTrials on an existing active '
+         'study always ends normally with a finished operation (the datastore-error branches after the record exists are shown unreachable '
+         'from what the datastore returned). EARLY STOPPING (C06_early_stop_operation_never_left_active, ..._quiet_along_every_history, '
          '..._reaches_the_algorithm): no RPC of any kind, whatever the algorithm answers (decisions for this trial, other trials, none; a '
          'failure; metadata that cannot be stored) and HOWEVER IT ENDS, leaves an ACTIVE early-stopping operation behind, along every '
          'history; in such a state a check on a live trial reaches the algorithm again and a failing algorithm\'s error is what the caller '
          'gets. Proving it exposed a genuine defect (metadata naming a missing trial left the operation ACTIVE for ever), repaired by a '
-         'fix: commit. PARTIAL: suggestion RPCs that end with an error after the record exists (only datastore errors, unreachable on '
-         'well-formed states) are decided by correspondence + monitor (after every step: no unfinished suggestion operation, no ACTIVE '
+         'fix: commit. PARTIAL: that the handler programs are the code is decided by correspondence + monitor (after every step: no unfinished suggestion operation, no ACTIVE '
          'early-stopping operation, algorithm reached again). Defects found and repaired by fix: commits.'),
    note=SVC_NOTE, technique='Rocq proof (state invariant by structural induction over handler programs) + trace-level correspondence + fault-sequence monitor', design='5/C06')
 CLAIMED['C07'] = dict(
@@ -129,6 +134,9 @@ CLAIMED['C04'] = dict(
          'lock first, study/owner lock innermost, LIFO release, returns holding nothing: C04_lock_discipline) and therefore no reachable '
          'configuration is deadlocked (C04_no_deadlock); under every schedule no lock is ever held by two threads (C04_mutual_exclusion) and '
          'in every handler every datastore write is made under the lock of what it writes (C04_writes_are_made_under_their_lock). '
+         'NO LOST UPDATE (C04_no_lost_update): while a thread is inside a critical section, under every schedule of the other threads the '
+         'part of the datastore that its lock protects is exactly what that thread last saw or wrote - nothing another thread does in '
+         'between changes it. '
          'TRANSLATOR: coq/Gen/ServiceLocks.v is regenerated from vizier_service.py at every run (per RPC method: datastore call sites in '
          'source order with the lexically enclosing servicer locks; nesting of the with-statements); re-checked in the kernel on that '
          'table: writes under their lock, every read that feeds a rewrite under the same lock (get_trial / update_trial, max_trial_id '
@@ -178,7 +186,7 @@ CLAIMED['C16'] = dict(
          'rejects empty names, bounds+feasible, duplicate / mixed / non-finite feasible values, non-finite / reversed / mixed bounds, and '
          'space.add rejects duplicate names (one theorem per class); accepted definitions are normalised (sorted feasible values as a '
          'permutation of the input, ordered finite bounds, inferred type); SequentialParameterBuilder (dfs and bfs) visits exactly the '
-         'parameters active under the chosen values for every conditional tree (C16_builder_visits_exactly_active). Tie: factory / contains / '
+         'parameters active under the chosen values for every conditional tree (C16_builder_visits_exactly_active), and it validates the value chosen for EVERY parameter whatever its type: a value outside the domain of any active parameter is refused, an answer lists exactly the active parameters with the values chosen (C16_builder_validates_every_value; stating it exposed a genuine defect - continuous parameters were not validated - repaired by a fix: commit). Tie: factory / contains / '
          'SearchSpace.contains / SequentialParameterBuilder compared with the model on generated definitions, near-miss assignments and '
          'conditional spaces; conditional membership must raise NotImplementedError; Study.add_trial must refuse outside trials. One defect '
          'found and repaired (OverflowError from contains).'),
@@ -212,10 +220,16 @@ CLAIMED['C03'] = dict(
          'well-formed DOUBLE / INTEGER / DISCRETE / CATEGORICAL config, continuified or indexed (C03_decode_in_domain, closed under the global '
          'context); every DefaultModelInputConverter construction site in the converters package leaves clipping on (C03_all_sites_clip, over the '
          'translated site list); without clipping the statement is REFUTED by a kernel-checked witness (C03_noclip_refuted); snapping returns a '
-         'closest feasible value; LOG / REVERSE_LOG with a non-positive bound is refused. PARTIAL: the algorithms themselves (random, '
-         'quasi-random, grid, eagle, NSGA-II, CMA-ES, BOCS, Harmonica, default seeding) are not modelled; every suggestion they make on generated '
-         'spaces x histories is checked by an independent membership oracle, and refusals must be exceptions. Two defects found and repaired '
-         '(LOG scale with low bound 0; +-inf decoded as "missing").'),
+         'closest feasible value; LOG / REVERSE_LOG with a non-positive bound is refused. THE DEFAULT / CENTRE SEED (suggest_default.py; branch '
+         'order and value formulas regenerated from the source into Gen/SuggestDefault.v on every run): for every well-formed parameter of '
+         'the four types with no declared default the seed exists and lies in the domain (C03_default_seed_in_domain, '
+         'C03_default_formulas: index < length, lo <= midpoint <= hi); a declared default is handed out exactly when it lies in the '
+         'domain and the seeding is refused otherwise (C03_declared_default, C03_default_never_outside; stating it exposed a genuine '
+         'defect - an out-of-range default of a DOUBLE parameter was suggested - repaired by a fix: commit); the wrapper seeds only an '
+         'empty study and keeps the requested count (C03_seed_wrapper). PARTIAL: the algorithms themselves (random, '
+         'quasi-random, grid, eagle, NSGA-II, CMA-ES, BOCS, Harmonica) are not modelled; every suggestion they make on generated '
+         'spaces x histories is checked by an independent membership oracle, and refusals must be exceptions. Defects found and repaired '
+         '(LOG scale with low bound 0; +-inf decoded as "missing"; unvalidated DOUBLE default).'),
    note=CONV_NOTE, technique='Rocq proof (case analysis on the decode pipeline, argmin lemma) + translator + vm_compute correspondence + membership monitor', design='5/C03')
 CLAIMED['C15'] = dict(
    text=('Theorems: index decode returns the feasible value at that index; one-hot blocks have exactly one 1 and argmax recovers the index; '
